@@ -1386,10 +1386,7 @@ impl TestTextSelection for TextSelectionSet {
             return false;
         }
         match operator {
-            TextSelectionOperator::Equals {
-                all: false,
-                negate: false,
-            } => {
+            TextSelectionOperator::Equals { negate: false, .. } => {
                 //ALL of the items in this set must match with ANY item in the otherset
                 for item in self.iter() {
                     if !item.test(operator, reftextsel, resource) {
@@ -1439,10 +1436,7 @@ impl TestTextSelection for TextSelectionSet {
                 all: false,
                 negate: false,
             }
-            | TextSelectionOperator::InSet {
-                all: false,
-                negate: false,
-            } => {
+            | TextSelectionOperator::InSet { negate: false, .. } => {
                 // ALL of the items in this set must match with ANY item in the otherset
                 // This is a weaker form of Equals (could have also been called SameRange)
                 for item in self.iter() {
@@ -1508,10 +1502,7 @@ impl TestTextSelection for TextSelectionSet {
                 .leftmost()
                 .unwrap()
                 .test(operator, reftextsel, resource),
-            TextSelectionOperator::SameRange {
-                all: true,
-                negate: false,
-            } => {
+            TextSelectionOperator::SameRange { negate: false, .. } => {
                 self.leftmost()
                     .unwrap()
                     .test(operator, reftextsel, resource)
@@ -1532,10 +1523,10 @@ impl TestTextSelection for TextSelectionSet {
             | TextSelectionOperator::Succeeds { negate: true, .. }
             | TextSelectionOperator::SameBegin { negate: true, .. }
             | TextSelectionOperator::SameEnd { negate: true, .. }
+            | TextSelectionOperator::SameRange { negate: true, .. }
             | TextSelectionOperator::InSet { negate: true, .. } => {
                 !self.test(&operator.toggle_negate(), reftextsel, resource)
             }
-            _ => unreachable!("unknown operator+modifier combination"),
         }
     }
 
@@ -1551,10 +1542,7 @@ impl TestTextSelection for TextSelectionSet {
             return false;
         }
         match operator {
-            TextSelectionOperator::Equals {
-                all: false,
-                negate: false,
-            } => {
+            TextSelectionOperator::Equals { negate: false, .. } => {
                 if self.len() != refset.len() {
                     //each item must have a counterpart so the sets must be equal length
                     return false;
@@ -1608,10 +1596,7 @@ impl TestTextSelection for TextSelectionSet {
                 all: false,
                 negate: false,
             }
-            | TextSelectionOperator::InSet {
-                all: false,
-                negate: false,
-            } => {
+            | TextSelectionOperator::InSet { negate: false, .. } => {
                 // ALL of the items in this set must match with ANY item in the otherset
                 // This is a weaker form of Equals (could have also been called SameRange)
                 for item in self.iter() {
@@ -1677,10 +1662,7 @@ impl TestTextSelection for TextSelectionSet {
                 .leftmost()
                 .unwrap()
                 .test_set(operator, refset, resource),
-            TextSelectionOperator::SameRange {
-                all: true,
-                negate: false,
-            } => {
+            TextSelectionOperator::SameRange { negate: false, .. } => {
                 self.leftmost()
                     .unwrap()
                     .test_set(operator, refset, resource)
@@ -1701,10 +1683,10 @@ impl TestTextSelection for TextSelectionSet {
             | TextSelectionOperator::Succeeds { negate: true, .. }
             | TextSelectionOperator::SameBegin { negate: true, .. }
             | TextSelectionOperator::SameEnd { negate: true, .. }
+            | TextSelectionOperator::SameRange { negate: true, .. }
             | TextSelectionOperator::InSet { negate: true, .. } => {
                 !self.test_set(&operator.toggle_negate(), refset, resource)
             }
-            _ => unreachable!("unknown operator+modifier combination"),
         }
     }
 }
@@ -1828,10 +1810,10 @@ impl TestTextSelection for TextSelection {
             | TextSelectionOperator::Succeeds { negate: true, .. }
             | TextSelectionOperator::SameBegin { negate: true, .. }
             | TextSelectionOperator::SameEnd { negate: true, .. }
+            | TextSelectionOperator::SameRange { negate: true, .. }
             | TextSelectionOperator::InSet { negate: true, .. } => {
                 !self.test(&operator.toggle_negate(), reftextsel, resource)
             }
-            _ => unreachable!("unknown operator+modifier combination"),
         }
     }
     /// This method is called to test whether a specific spatial relation (as expressed by the
@@ -1845,10 +1827,7 @@ impl TestTextSelection for TextSelection {
         resource: &TextResource,
     ) -> bool {
         match operator {
-            TextSelectionOperator::Equals {
-                all: false,
-                negate: false,
-            }
+            TextSelectionOperator::Equals { negate: false, .. }
             | TextSelectionOperator::Overlaps {
                 all: false,
                 negate: false,
@@ -1890,10 +1869,7 @@ impl TestTextSelection for TextSelection {
                 all: false,
                 negate: false,
             }
-            | TextSelectionOperator::InSet {
-                all: false,
-                negate: false,
-            } => {
+            | TextSelectionOperator::InSet { negate: false, .. } => {
                 for reftextsel in refset.iter() {
                     if self.test(operator, reftextsel, resource) {
                         return true;
@@ -2020,10 +1996,7 @@ impl TestTextSelection for TextSelection {
                 }
                 self.end == refset.rightmost().unwrap().end()
             }
-            TextSelectionOperator::SameRange {
-                all: true,
-                negate: false,
-            } => {
+            TextSelectionOperator::SameRange { negate: false, .. } => {
                 if refset.is_empty() {
                     return false;
                 }
@@ -2042,10 +2015,10 @@ impl TestTextSelection for TextSelection {
             | TextSelectionOperator::Succeeds { negate: true, .. }
             | TextSelectionOperator::SameBegin { negate: true, .. }
             | TextSelectionOperator::SameEnd { negate: true, .. }
+            | TextSelectionOperator::SameRange { negate: true, .. }
             | TextSelectionOperator::InSet { negate: true, .. } => {
                 !self.test_set(&operator.toggle_negate(), refset, resource)
             }
-            _ => unreachable!("unknown operator+modifier combination"),
         }
     }
 }
